@@ -1,16 +1,19 @@
 #!/bin/bash
 # Re-run every kept seeded / planted change against the check of its property.
 # usage: tools/regress_seeds.sh [logfile]      (edits /repo temporarily: run nothing else on /repo meanwhile)
+# Entries already present in the log file are skipped, so an interrupted run can be resumed.
 cd /verif
 LOG=${1:-/tmp/regress_seeds.log}
-: > $LOG
+touch $LOG
 for d in seeded/*/; do
   id=$(basename $d); prop=${id:0:3}
+  grep -q "^seeded/$id " $LOG && continue
   r=$(timeout 1800 tools/try_patch.sh $d/patch.diff $prop 2>&1 | grep "^== ")
   echo "seeded/$id $r" | tee -a $LOG
 done
 for f in planted/*.diff; do
   n=$(basename $f .diff); prop=$(echo ${n:0:3} | tr a-z A-Z)
+  grep -q "^planted/$n " $LOG && continue
   r=$(timeout 1800 tools/try_patch.sh $f $prop 2>&1 | grep "^== ")
   echo "planted/$n $r" | tee -a $LOG
 done
